@@ -262,16 +262,21 @@ def _c18_real_world(vio, rng, tier):
                     dsts = [e for i in range(2) for e in w.start("G", sim_id=f"D{i}").M.create((n_dst + 1 - i) // 2)] or None
                     if not srcs or not dsts:
                         continue
-                    case = {"helper": helper, "attrs": shape, "cache": cache, "n_src": len(srcs), "n_dest": len(dsts)}
+                    # src_set of connect_many_to_one is any Iterable (one-shot iterators included); connect_randomly takes
+                    # a sequence of sources and any iterable of destinations
+                    flav = rng.choice(["list", "tuple", "generator", "iterator", "dict keys", "filter"])
+                    wrap = {"list": list, "tuple": tuple, "generator": lambda l: (x for x in l), "iterator": iter,
+                            "dict keys": lambda l: {x: 1 for x in l}.keys(), "filter": lambda l: filter(lambda x: True, l)}[flav]
+                    case = {"helper": helper, "attrs": shape, "cache": cache, "n_src": len(srcs), "n_dest": len(dsts), "iterable": flav}
                     saved = mutil.random
                     mutil.random = random.Random(rng.randrange(10 ** 9))
                     try:
                         if helper == "many_to_one":
-                            mutil.connect_many_to_one(w, srcs, dsts[0], *shape)
+                            mutil.connect_many_to_one(w, wrap(srcs), dsts[0], *shape)
                         elif helper == "evenly":
-                            mutil.connect_randomly(w, srcs, dsts, *shape)          # evenly is the documented default
+                            mutil.connect_randomly(w, tuple(srcs) if flav == "tuple" else list(srcs), wrap(dsts), *shape)   # evenly is the documented default
                         else:
-                            mutil.connect_randomly(w, srcs, dsts, *shape, evenly=False)
+                            mutil.connect_randomly(w, tuple(srcs) if flav == "tuple" else list(srcs), wrap(dsts), *shape, evenly=False)
                     finally:
                         mutil.random = saved
                 if any(sim.successors_to_wait_for for sim in w.sims.values()):
@@ -356,4 +361,11 @@ def monitor_c18(rng: random.Random, tier: str):
         mutil.connect_many_to_one(w, list(range(k)), 77, "a")
         if w.calls != [(i, 77) for i in range(k)]:
             vio.append({"law": "connect_many_to_one", "n_src": k, "calls": w.calls})
+        for flav, wrap in (("tuple", tuple), ("generator", lambda l: (x for x in l)), ("iterator", iter), ("range", lambda l: range(len(l))),
+                           ("filter", lambda l: filter(lambda x: True, l)), ("dict keys", lambda l: {x: 1 for x in l}.keys())):
+            n += 1
+            w = sp.FakeWorld()
+            mutil.connect_many_to_one(w, wrap(list(range(k))), 77, "a", ("b", "c"))
+            if w.calls != [(i, 77) for i in range(k)]:
+                vio.append({"law": "connect_many_to_one connects every element of any iterable", "iterable": flav, "n_src": k, "calls": w.calls})
     return vio, n
